@@ -131,9 +131,13 @@ def build_cases(ctx, table):
         cm = classm if not ctx.quick else rng.sample(classm, 3) + ['List', 'Set', 'Dict', 'Name', 'MatchSequence']
         for m in cm:
             add(spec, m, shape, lay, LIGHT if ctx.quick else FULL, True)
+    later = []
     for spec, shape, lay in variants:
         for m in named:
-            add(spec, m, shape, lay, VAR_Q if ctx.quick else FULL, not ctx.quick)
+            if ctx.quick:
+                later.append((spec, m, shape, lay))   # quick: only the cells where the base layout converted (phase 2)
+            else:
+                add(spec, m, shape, lay, FULL, True)
         if not ctx.quick:
             for m in classm:
                 add(spec, m, shape, lay, LIGHT, False)
@@ -147,12 +151,12 @@ def build_cases(ctx, table):
     for spec, shape, lay in rp:
         for m in (named if ctx.quick else named + classm):
             add(spec, m, shape, lay, LIGHT, not ctx.quick)
-    return cases, {'operands_catalogue': len(base), 'operands_layout_variants': len(variants),
+    return cases, later, {'operands_catalogue': len(base), 'operands_layout_variants': len(variants),
                    'operands_hosted': len(hosted), 'operands_random': len(rnd), 'operands_repo_inputs': len(rp), 'modes_named': len(named),
                    'modes_class': len(classm)}
 
 
-def generate(cases, nproc=14):
+def generate(cases, nproc=12):
     n = max(1, min(nproc, len(cases) // 50 or 1))
     # interleave so that every shard gets a mix of cheap / expensive cases
     shards = [(k, cases[k::n]) for k in range(n)]
@@ -167,9 +171,9 @@ def validate_all(ctx, results):
 
     def one(bs):
         b, s = bs
-        return b, s, ctx.validate(b, module='CoerceTrace', cfg='CoerceTrace')
+        return b, s, ctx.validate(b, module='CoerceTrace', cfg='CoerceTrace', heap='3g')
 
-    with cf.ThreadPoolExecutor(max_workers=min(7, len(results))) as ex:
+    with cf.ThreadPoolExecutor(max_workers=min(4, len(results))) as ex:
         for r in ex.map(one, results):
             out.append(r)
     return out
@@ -245,9 +249,24 @@ def run(ctx):
     t0 = time.time()
     table = load_table(ctx)
     t1 = time.time()
-    cases, info = build_cases(ctx, table)
+    cases, later, info = build_cases(ctx, table)
     t2 = time.time()
     res = generate(cases)
+    if later:
+        # phase 2 (quick tier): layout variants in the cells where the base layout of the same shape was converted
+        conv = set()
+        for batch, scripts in res:
+            for tr in batch['traces']:
+                sc = scripts[tr['id']]
+                if sc['layout'] == 'base' and any(e['outcome'] == 'ok' and e['res']['kind'] != tr['op']['kind']
+                                                   for e in tr['steps'] if e['call'] in ('as_', 'ctor', 'ast')):
+                    conv.add((sc['shape'], sc['mode']))
+        n0 = len(cases)
+        more = [[n0 + i + 1, list(spec), m, shape, lay, VAR_Q, False]
+                for i, (spec, m, shape, lay) in enumerate(x for x in later if (x[2], x[1]) in conv)]
+        cases += more
+        info['variant_cells_skipped_not_converting'] = len(later) - len(more)
+        res += generate(more)
     t3 = time.time()
     val = validate_all(ctx, res)
     ctx.extra['phase_s'] = {'model': round(t1 - t0, 1), 'cases': round(t2 - t1, 1), 'pfst': round(t3 - t2, 1),
